@@ -1,6 +1,6 @@
 """Per-property registration data used by bin/mkmanifest (MANIFEST.json is generated)."""
 
-HOOK_COMMITS = ["1eccb32", "b6ff38a", "5d85079"]
+HOOK_COMMITS = ["1eccb32", "b6ff38a", "5d85079", "727adc8"]
 
 LEVEL_NOTE_COMMON = ("Trusted: TLC and the CommunityModules Json/Bitwise Java overrides; the Go toolchain; the harness "
                      "drivers; Go reference functions only where named, each re-validated against the TLA+ text by TLC "
@@ -241,4 +241,21 @@ CHECKS["C20"] = {
             "restoration of bytes and permission bits. The TLA+ content is a finite mapping table; the weight is in the harness.",
     "design_ref": "DESIGN.md section 5 (C20)",
     "note": "Runs with umask 0 in fresh directories; the stale prebuilt /repo/cmd/lz4c/lz4c binary is never executed.",
+}
+
+CHECKS["C08"] = {
+    "technique": "TLA+ models of the concurrent Writer and Reader pipelines with Go channel semantics and buffer ownership (PipelineW.tla, "
+                 "PipelineR.tla), model-checked over all interleavings (safety, deadlock, liveness); hook-event traces of real runs under "
+                 "seeded schedule perturbation validated by TLC (PipelineW_Trace, PipelineR_Trace); race detector, pool poisoning, goroutine "
+                 "scan and watchdog as sensors judged by the trace specifications",
+    "text": "TLC explores every interleaving of producer, per-block workers and ordering goroutine (Writer) and of reader, decoders, "
+            "collector and consumer (Reader) for the tier's block counts, queue capacities and failure positions: blocks reach the "
+            "sink / consumer in submission order, no buffer is used after it went back to the pool, Close flushes everything, no "
+            "goroutine is left blocked, no deadlock, termination under weak fairness. Real concurrent runs (harness built with -race, "
+            "hooks before every send/close and after every receive under one global order, seeded perturbation, poisoned pools) must be "
+            "behaviours of these models - FIFO discipline, write/delivery order, shutdown handshake, buffers returned only after the "
+            "orderer closed the block - and their sensors must be silent: no race, no poisoned-buffer write, no goroutine left after "
+            "Close / end of stream / source or decoding error, no hang, correct result.",
+    "design_ref": "DESIGN.md section 5 (C08)",
+    "note": "The code's schedules are sampled, the model's are exhaustive; gate replay of TLC schedules into the code is not built.",
 }
